@@ -39,6 +39,7 @@ type op struct {
 	Key     uint32 `json:"key"`   // create / delchan
 	M       int    `json:"m"`
 	Pre     bool   `json:"pre"` // write: the writer is opened before the threads start (long-lived writer)
+	NoEnd   bool   `json:"noend"` // dwrite: the writer has no preset end
 }
 
 type tcase struct {
